@@ -283,6 +283,9 @@ namespace plan
           return;
         d->branches.push_back(items);
         text += std::string(br ? " or {" : "{") + bt + " }";
+        // an explicit cost on this disjunct (a hint for the heuristic only; the other disjunct may or may not carry one)
+        if (modn(slack / 5 + br, 4) == 0)
+          text += " [" + qtext(mpq_class(1 + modn(slack / 20, 3))) + "]";
       }
       Stmt s;
       s.k = Stmt::DISJ;
